@@ -252,11 +252,12 @@ def coq_vflags(o):
 
 # --------------------------------------------------------------------------- options <-> argv
 
-def opts_of_call(c, rng):
+def opts_of_call(c, rng, omit_defaults=False):
     """abstract library call (harness command dict) -> options typed on the command line.
-    This is the inverse of Model/Cli.v calls_of; a default value is omitted at random."""
+    This is the inverse of Model/Cli.v calls_of; a default value is omitted at random
+    (always in the fixed tour, so that every default of opts.rs is relied upon in every run)."""
     k = c["cmd"]
-    coin = lambda: rng.random() < 0.5
+    coin = lambda: omit_defaults or rng.random() < 0.5
     if k == "new":
         return {"sub": "new", "v": c.get("spec"),
                 "d": None if c["alg"] == "sha512" and coin() else c["alg"],
@@ -516,8 +517,24 @@ def _norm_inventory(raw):
         return None, False, None
     tainted = False
     vs = inv.get("versions") if isinstance(inv, dict) else None
+
+    def sort_paths(m):
+        # several paths of one digest are written in the iteration order of a HashMap
+        if isinstance(m, dict):
+            for k, v in m.items():
+                if isinstance(v, list) and all(isinstance(x, str) for x in v):
+                    m[k] = sorted(v)
+    if isinstance(inv, dict):
+        # which of several identical files keeps its content path at commit (deduplication) follows the
+        # iteration order of a per-process HashMap: compare the digests, and the content files as a multiset
+        if isinstance(inv.get("manifest"), dict):
+            inv["manifest"] = sorted(k.lower() for k in inv["manifest"])
+        for fx in (inv.get("fixity") or {}).values() if isinstance(inv.get("fixity"), dict) else []:
+            sort_paths(fx)
     if isinstance(vs, dict):
         for v in vs.values():
+            if isinstance(v, dict):
+                sort_paths(v.get("state"))
             c = v.get("created") if isinstance(v, dict) else None
             if isinstance(c, str) and c[:4].isdigit() and int(c[:4]) >= NOW_YEAR - 1:
                 v["created"] = "NOW"          # no -c / created given: the wall clock of each side
@@ -537,8 +554,33 @@ def tree_differences(root_a, root_b):
     timestamps, sidecars against their own inventory.  Returns a list of messages."""
     a, b = _snap(root_a), _snap(root_b)
     out = []
+    roots = {os.path.dirname(k) for s_ in (a, b) for k in s_ if os.path.basename(k).startswith("0=ocfl_object_")}
+    content = ({}, {})          # (object root, version dir) -> sorted digests of the content files, per side
+
+    def content_area(k):
+        d = os.path.dirname(k)
+        while d:
+            if d in roots:
+                rel = k[len(d) + 1:]
+                m = re.match(r"^(v\d+)/(.+)$", rel)
+                if m and not m.group(2).startswith("inventory.json"):
+                    return (d, m.group(1))
+                return None
+            d = os.path.dirname(d)
+        return None
+    for side, snap_ in enumerate((a, b)):
+        for k, e in snap_.items():
+            ca = content_area(k)
+            if ca is not None and e[0] == "f":
+                content[side].setdefault(ca, []).append(e[3])
+    for ca in sorted(set(content[0]) | set(content[1])):
+        if sorted(content[0].get(ca, [])) != sorted(content[1].get(ca, [])):
+            out.append("%s/%s: content files differ (library %d files, CLI %d files, compared by digest)" % (
+                ca[0], ca[1], len(content[0].get(ca, [])), len(content[1].get(ca, []))))
     for k in sorted(set(a) | set(b)):
         x, y = a.get(k), b.get(k)
+        if content_area(k) is not None and (x or y)[0] in ("f", "d"):
+            continue
         if x is None or y is None:
             out.append("%s: only in %s" % (k, "library repository" if y is None else "CLI repository"))
             continue
@@ -550,8 +592,6 @@ def tree_differences(root_a, root_b):
             ib, tb, pb = _norm_inventory(y[4])
             if ia is None or ia != ib:
                 out.append("%s: inventories differ" % k)
-            elif not (ta and tb):
-                out.append("%s: inventory bytes differ although all timestamps were given" % k)
             elif pa != pb:
                 out.append("%s: pretty-printing differs" % k)
             continue
@@ -571,3 +611,1013 @@ def tree_differences(root_a, root_b):
             continue
         out.append("%s: %r vs %r" % (k, x[:3], y[:3]))
     return out
+
+
+# --------------------------------------------------------------------------- replaying one history
+
+class Abandon(Exception):
+    pass
+
+
+def glob_regex(glob):
+    """the subset of globset syntax the generator uses: '*' (crosses '/'), '?' and literals.
+    globset matches on bytes: '?' is one BYTE (it does not match a two-byte character)."""
+    out = []
+    for ch in glob:
+        if ch == "*":
+            out.append(b".*")
+        elif ch == "?":
+            out.append(b".")
+        else:
+            out.append(re.escape(ch.encode("utf-8")))
+    rx = re.compile(b"(?s)^" + b"".join(out) + b"$")
+
+    class M:
+        @staticmethod
+        def match(p):
+            return rx.match(p.encode("utf-8"))
+    return M
+
+
+class Replay:
+    """one history, two repositories: library (harness session) and release binary"""
+
+    def __init__(self, ctx, cli, sess, hi, cfg, ops, hseed, recs, stats):
+        self.ctx, self.cli, self.s, self.hi, self.cfg, self.ops, self.hseed = ctx, cli, sess, hi, cfg, ops, hseed
+        self.recs, self.stats = recs, stats
+        self.rng = random.Random(hseed)
+        self.h = "L%d" % hi
+        self.lib = hist.Runner(ctx, cfg, "h%d-lib" % hi, session=sess, handle=self.h, init=False)
+        self.cl = hist.Runner(ctx, cfg, "h%d-cli" % hi, session=sess, handle="unused", init=False)
+        self.g = {"root": self.cl.root, "staging": self.cl.stg}
+        self.ids = [hist.obj_id(cfg, k) for k in range(2)]
+        self.ingested = {}
+        self.step = -1
+        self.desc = {"history": hi, "hseed": hseed, "cfg": cfg, "ops": ops}
+
+    # -- bookkeeping
+    def stat(self, k, n=1):
+        self.stats[k] = self.stats.get(k, 0) + n
+
+    def invoke(self, o, outcome, lib_summary, stdin=b"", g=None, cwd=None, what=None, dispatch=None):
+        """run the binary for options o; append the record; return (rec, stdout, stderr)"""
+        g = self.g if g is None else g
+        extra = self.rng.choice([[], [], [], ["-S"], ["--no-styles"], ["-q"], ["-v"]])
+        argv = argv_of_opts(g, o, self.rng, extra)
+        rc, out, err = self.cli.run(argv, cwd=cwd, stdin=stdin)
+        self.cli.subs[o["sub"]] = self.cli.subs.get(o["sub"], 0) + 1
+        root = g.get("root") if g.get("root") is not None else "."
+        rec = {"h": self.hi, "step": self.step, "what": what or o["sub"], "argv": argv, "rc": rc,
+               "g": coq_globals(g), "s": coq_subcmd(o), "outcome": outcome, "printed": None,
+               "dispatch": dispatch or "(Calls %s %s %s %s)" % (coq_bool(o["sub"] != "init"), cb(root),
+                                                                 copt(g.get("staging")), coq_calls(o, root, g.get("staging"))),
+               "lib": lib_summary, "msgs": [], "known": False, "desc": self.desc,
+               "stderr": err[-400:].decode("utf-8", "replace")}
+        self.recs.append(rec)
+        if cli_panicked(rc, err):
+            rec["msgs"].append("the binary panicked / was killed (exit status %d)" % rc)
+        return rec, out, err
+
+    def expect_exit(self, rec, ok):
+        """model-free: exit status 0 exactly when every library call succeeded"""
+        if ok and rec["rc"] != 0:
+            rec["msgs"].append("the library succeeded but the exit status is %d" % rec["rc"])
+        if not ok and rec["rc"] == 0:
+            rec["msgs"].append("the library reported an error but the exit status is 0")
+
+    def call(self, cmd, **kw):
+        d = dict(cmd=cmd, h=self.h, **kw) if isinstance(cmd, str) else dict(cmd, h=self.h)
+        r = self.s.call(d)
+        if "panic" in r:
+            self.stat("library_panics")
+            raise Abandon("library panic in %s: %s" % (d.get("cmd"), r["panic"]))
+        return r
+
+    # -- init
+    def init(self):
+        cfg = self.cfg
+        lay = hist.LAYOUTS[cfg["layout"]]
+        r = self.s.call(dict(cmd="init", h=self.h, root=self.lib.root, staging=self.lib.stg, spec=cfg["repo_spec"], layout=lay))
+        if "ok" not in r:
+            raise common.BuildError("library init failed: %r" % (r,))
+        cfile = None
+        if lay and lay.get("config"):
+            cfile = os.path.join(self.cl.sc.base, "layout-config.json")
+            with open(cfile, "w") as f:
+                f.write(lay["config"])
+        coin = lambda: self.hi == 0 or self.rng.random() < 0.5
+        o = {"sub": "init", "v": None if cfg["repo_spec"] == "1.1" and coin() else cfg["repo_spec"], "c": cfile,
+             "l": (None if lay and lay["ext"].startswith("0004") and coin() else (lay["ext"] if lay else "none")),
+             "call": {"spec": cfg["repo_spec"], "layout": lay}}
+        rec, out, err = self.invoke(o, "(OPlain [LOk])", "ok")
+        self.expect_exit(rec, True)
+        self.compare_trees(rec)
+
+    def compare_trees(self, rec):
+        diffs = tree_differences(self.lib.root, self.cl.root)
+        diffs += ["staging/" + d for d in tree_differences(self.lib.staging_root, self.cl.staging_root)]
+        if not diffs:
+            return
+        # a difference between two runs of the LIBRARY on the same history is not a CLI matter
+        if self.library_is_nondeterministic():
+            self.stat("histories_abandoned_library_nondeterminism")
+            raise Abandon("library nondeterminism")
+        rec["msgs"].append("repository trees differ after this step: " + "; ".join(diffs[:6]))
+        raise Abandon("trees differ")
+
+    def library_is_nondeterministic(self):
+        for attempt in range(2):
+            s2 = hist.Session()
+            r2 = hist.Runner(self.ctx, self.cfg, "h%d-lib-again%d" % (self.hi, attempt), session=s2, handle="X")
+            try:
+                for op in self.ops[:self.step + 1]:
+                    if self.cfg.get("fresh_handle"):
+                        r2.reopen()
+                    cmd = concretize(r2, op)
+                    if cmd["cmd"] != "nocall":
+                        s2.call(cmd)
+                d = tree_differences(self.lib.root, r2.root) + tree_differences(self.lib.staging_root, r2.staging_root)
+            finally:
+                s2.close()
+                r2.sc.cleanup()
+            if d:
+                return True
+        return False
+
+    # -- the history
+    def run(self):
+        try:
+            self.init()
+            checkpoints = 0
+            for idx, op in enumerate(self.ops):
+                self.step = idx
+                if self.cfg.get("fresh_handle"):
+                    self.lib.reopen()
+                lib_cmd = concretize(self.lib, op)
+                cli_cmd = concretize(self.cl, op)
+                r = {"ok": None} if lib_cmd["cmd"] == "nocall" else self.call(lib_cmd)
+                ok = "ok" in r
+                o = opts_of_call(cli_cmd, self.rng, omit_defaults=self.hi == 0)
+                ncalls = {"commit": 2, "upgrade_object": 2, "nocall": 0}.get(cli_cmd["cmd"], 1)
+                outcome = "(OPlain [%s])" % ("; ".join(["LOk"] * ncalls) if ok else coq_lib_result(r))
+                stdin = (cli_cmd.get("answer") or "n").encode() + b"\n" if o["sub"] == "purge" and not o["f"] else b""
+                rec, out, err = self.invoke(o, outcome, hist.res_class(r), stdin=stdin, what=op["op"])
+                self.stat("step:" + op["op"] + (":ok" if ok else ":" + hist.res_class(r)))
+                self.expect_exit(rec, ok)
+                if o["sub"] == "purge" and not o["f"] and o["answer"] == "n" and b"Aborted" not in out:
+                    rec["msgs"].append("declined purge did not print Aborted")
+                if op.get("special") and ok:
+                    for n, tag in op["files"]:
+                        self.ingested[(op["id"], "special/" + n)] = content_bytes(tag)
+                self.compare_trees(rec)
+                if op["op"] in ("commit", "upgrade_object") and ok and checkpoints < 2 and self.rng.random() < 0.5:
+                    checkpoints += 1
+                    self.queries(final=False)
+                if op.get("special") and ok:
+                    self.q_cat(op["id"], staged=True, only_special=True)
+            self.step = len(self.ops)
+            self.queries(final=True)
+            self.compare_trees(self.recs[-1])          # queries must not have changed anything
+            self.validate_scenarios()
+        except Abandon as e:
+            self.stat("histories_abandoned")
+            self.stats.setdefault("abandon_reasons", []).append(str(e)[:120])
+        finally:
+            self.s.call(dict(cmd="drop", h=self.h))
+            self.lib.sc.cleanup()
+            self.cl.sc.cleanup()
+
+    # -- read-only commands ------------------------------------------------------------------
+    def queries(self, final):
+        qs = []
+        for oid in self.ids:
+            qs += [lambda oid=oid: self.q_ls_contents(oid, "head"), lambda oid=oid: self.q_ls_contents(oid, "staged"),
+                   lambda oid=oid: self.q_ls_contents(oid, "version"), lambda oid=oid: self.q_ls_dirs(oid),
+                   lambda oid=oid: self.q_cat(oid, staged=False), lambda oid=oid: self.q_cat(oid, staged=True),
+                   lambda oid=oid: self.q_log(oid, False), lambda oid=oid: self.q_log(oid, True),
+                   lambda oid=oid: self.q_show(oid, staged=False), lambda oid=oid: self.q_show(oid, staged=True),
+                   lambda oid=oid: self.q_diff(oid), lambda oid=oid: self.q_status_id(oid),
+                   lambda oid=oid: self.q_info(oid)]
+        qs += [lambda: self.q_ls_objects(False), lambda: self.q_ls_objects(True), lambda: self.q_status(),
+               lambda: self.q_info(None), lambda: self.q_ls_objects(False, glob=True)]
+        if final:
+            self.rng.shuffle(qs)
+            chosen = qs[:22] if self.ctx.quick() else qs
+        else:
+            chosen = self.rng.sample(qs, 4)
+        for q in chosen:
+            q()
+
+    @staticmethod
+    def lines(out):
+        t = out.decode("utf-8", "replace")
+        ls = t.split("\n")
+        if ls and ls[-1] == "":
+            ls.pop()
+        return ls
+
+    def vtext(self, n):
+        return self.rng.choice(["%d", "v%d"]) % n
+
+    def head_num(self, oid):
+        r = self.call("get_object_details", id=oid, version=None)
+        return r["ok"]["details"]["num"] if "ok" in r else 0
+
+    def q_ls_objects(self, staged, glob=False):
+        rng = self.rng
+        g = None
+        if glob:
+            g = rng.choice(["*", self.ids[0], self.ids[0][:-1] + "*", "*1", "nomatch*", self.ids[1][:-1] + "?"])
+        o = ls_opts(S=staged, l=rng.random() < 0.5, t=rng.random() < 0.5, p=rng.random() < 0.3, H=rng.random() < 0.3,
+                    s=rng.choice([None, None, "name", "version", "none", "default", "updated", "physical"]),
+                    r=rng.random() < 0.3, o=glob, id=g)
+        if o["p"] and not o["t"] and not o["l"]:
+            o["t"] = True
+        lib = self.call("list_staged" if staged else "list_objects", glob=g)
+        o["call"] = {"cmd": "list_staged" if staged else "list_objects", "glob": g}
+        self.check_object_listing(o, lib)
+
+    def q_status(self):
+        lib = self.call("list_staged", glob=None)
+        o = {"sub": "status", "id": None, "call": {"cmd": "list_staged", "glob": None}}
+        self.check_object_listing(o, lib, status=True)
+
+    def check_object_listing(self, o, lib, status=False):
+        if "ok" in lib:
+            outcome = "(OLs (LsObjects LOk %s))" % ("[" + "; ".join(coq_lib_result(x) for x in lib["ok"]) + "]")
+            items = [x["ok"] for x in lib["ok"] if "ok" in x]
+            ok = len(items) == len(lib["ok"])
+        else:
+            outcome, items, ok = "(OLs (LsObjects (LErr EOther) []))", [], False
+        rec, out, err = self.invoke(o, outcome, {"entries": len(items), "ok": ok}, what="status" if status else "ls objects")
+        self.expect_exit(rec, ok)
+        if "ok" in lib and not ok:
+            self.stat("ls_with_unreadable_object")
+        long_, tsv, phys, header = (True, False, False, True) if status else (o["l"], o["t"], o["p"], o["H"])
+        ls = [l.replace(self.cl.sc.base, self.lib.sc.base) for l in self.lines(out)]
+        if header and ls and "Object ID" in ls[0]:
+            ls = ls[1:]
+        got = []
+        for line in ls:
+            ent = {}
+            if tsv:
+                parts = [x.rstrip(" ") for x in line.split("\t")]
+                if long_:
+                    ent["version"], parts = parts[0].strip(), parts[2:]
+                ent["id"] = parts[0] if parts else None
+                if phys and len(parts) > 1:
+                    ent["root"] = parts[1]
+            elif long_:
+                m = re.match(r"\s*(v\d+) (\d{4}-\d\d-\d\d \d\d:\d\d) (.*)$", line)
+                if not m:
+                    rec["msgs"].append("unparsable listing line %r" % line)
+                    continue
+                ent["version"] = m.group(1)
+                rest = m.group(3).split() if phys else [m.group(3).rstrip(" ")]
+                ent["id"] = rest[0]
+                if phys and len(rest) > 1:
+                    ent["root"] = rest[1]
+            else:
+                ent["id"] = line
+            got.append(ent)
+        if sorted(e["id"] for e in got) != sorted(i["id"] for i in items):
+            rec["msgs"].append("listing shows %r, the library returned %r" % (sorted(e["id"] for e in got), sorted(i["id"] for i in items)))
+            return
+        by = {i["id"]: i for i in items}
+        for e in got:
+            i = by[e["id"]]
+            if "version" in e and e["version"] != i["details"]["version"]:
+                rec["msgs"].append("listing version %s for %s, library %s" % (e["version"], e["id"], i["details"]["version"]))
+            if "root" in e and e["root"] != i["object_root"]:
+                rec["msgs"].append("listing physical path %s for %s, library %s" % (e["root"], e["id"], i["object_root"]))
+        if (status or o["s"] == "name") and len(got) > 1:
+            want = sorted(e["id"] for e in got)
+            if not status and o["r"]:
+                want.reverse()
+            if [e["id"] for e in got] != want:
+                rec["msgs"].append("listing not sorted by name: %r" % [e["id"] for e in got])
+
+    def pick_version(self, oid, staged_mode):
+        """(mode flags for -S / -v, harness version)"""
+        head = self.head_num(oid)
+        if staged_mode == "staged":
+            return True, None, None
+        if staged_mode == "version":
+            n = self.rng.choice([1, max(1, head), head + 1, max(1, head - 1)])
+            return False, self.vtext(n), n
+        return False, None, None
+
+    def q_ls_contents(self, oid, mode):
+        rng = self.rng
+        staged, vt, vn = self.pick_version(oid, mode)
+        lib = self.call("get_staged_object", id=oid) if staged else self.call("get_object", id=oid, version=vn)
+        glob = rng.choice([None, None, "*", "dir/*", "*.txt", "special/*", "a.txt", "nomatch", "/dir/*", "/", "*/sub/*", "?.txt", "["])
+        o = ls_opts(id=oid, path=glob, S=staged, v=vt, l=rng.random() < 0.5, p=rng.random() < 0.3, d=rng.random() < 0.3,
+                    H=rng.random() < 0.3, s=rng.choice([None, None, "name", "version", "none", "digest", "physical", "updated"]),
+                    r=rng.random() < 0.3)
+        o["t"] = o["p"] or o["d"] or rng.random() < 0.4
+        o["call"] = {"cmd": "get_staged_object" if staged else "get_object", "id": oid}
+        ok = "ok" in lib
+        glob_ok = glob != "["
+        outcome = "(OLs (LsContents %s %s))" % (coq_lib_result(lib), coq_bool(glob_ok))
+        rec, out, err = self.invoke(o, outcome, hist.res_class(lib), what="ls contents")
+        self.expect_exit(rec, ok and glob_ok)
+        if not (ok and glob_ok):
+            if out:
+                rec["msgs"].append("failed listing wrote to stdout")
+            return
+        state = lib["ok"]["state"]
+        gl = (glob or "*").lstrip("/") or "*"
+        rx = glob_regex(gl)
+        want = {p: d for p, d in state.items() if rx.match(p)}
+        ls = self.lines(out)
+        if o["H"] and ls and "Logical Path" in ls[0]:
+            ls = ls[1:]
+        got = {}
+        for line in ls:
+            ent = {}
+            if o["t"]:
+                parts = [x.rstrip(" ") for x in line.split("\t")]
+                if o["l"]:
+                    ent["version"], parts = parts[0].strip(), parts[2:]
+                ent["path"], parts = parts[0], parts[1:]
+                if o["p"]:
+                    ent["storage"], parts = parts[0], parts[1:]
+                if o["d"]:
+                    ent["digest"] = parts[0]
+            elif o["l"]:
+                m = re.match(r"\s*(v\d+) (\d{4}-\d\d-\d\d \d\d:\d\d) (.*)$", line)
+                if not m:
+                    rec["msgs"].append("unparsable listing line %r" % line)
+                    continue
+                ent["version"], ent["path"] = m.group(1), m.group(3)
+            else:
+                ent["path"] = line
+            if ent["path"] in got:
+                rec["msgs"].append("path listed twice: %r" % ent["path"])
+            got[ent["path"]] = ent
+        if sorted(got) != sorted(want) or len(ls) != len(want):
+            rec["msgs"].append("ls printed %d entries %r, the library state has %d matching paths %r" % (
+                len(ls), sorted(got)[:8], len(want), sorted(want)[:8]))
+            return
+        for p, e in got.items():
+            d = want[p]
+            if "version" in e and int(e["version"][1:]) != d["last_update"]:
+                rec["msgs"].append("ls -l version %s for %s, library v%d" % (e["version"], p, d["last_update"]))
+            if "storage" in e and e["storage"] != d["storage_path"]:
+                # the two repositories may keep different (identical) files after deduplication: the path
+                # printed must hold the content the library reports for the logical path
+                try:
+                    hx = hashlib.new(lib["ok"]["alg"], open(e["storage"], "rb").read()).hexdigest()
+                except (OSError, ValueError):
+                    hx = None
+                if hx != d["digest"].lower():
+                    rec["msgs"].append("ls -p path %r for %s does not hold the content the library reports (%r)" % (
+                        e["storage"], p, d["storage_path"]))
+            if "digest" in e and e["digest"] != "%s:%s" % (lib["ok"]["alg"], d["digest"]):
+                rec["msgs"].append("ls -d digest differs for %s" % p)
+
+    def q_ls_dirs(self, oid):
+        lib = self.call("get_object", id=oid, version=None)
+        o = ls_opts(id=oid, D=True)
+        o["call"] = {"cmd": "get_object", "id": oid}
+        rec, out, err = self.invoke(o, "(OLs (LsContents %s true))" % coq_lib_result(lib), hist.res_class(lib), what="ls -D")
+        self.expect_exit(rec, "ok" in lib)
+        if "ok" in lib:
+            want = set()
+            for p in lib["ok"]["state"]:
+                want.add(p if "/" not in p else p.split("/")[0] + "/")
+            if sorted(self.lines(out)) != sorted(want):
+                rec["msgs"].append("ls -D printed %r, expected the direct children %r" % (sorted(self.lines(out)), sorted(want)))
+
+    def q_cat(self, oid, staged, only_special=False):
+        rng = self.rng
+        if staged:
+            vt = vn = None
+            lib_obj = self.call("get_staged_object", id=oid)
+        else:
+            _, vt, vn = self.pick_version(oid, rng.choice(["head", "version"]))
+            lib_obj = self.call("get_object", id=oid, version=vn)
+        paths = sorted(lib_obj["ok"]["state"]) if "ok" in lib_obj else []
+        special = [p for p in paths if p.startswith("special/")]
+        if only_special:
+            chosen = special
+        else:
+            chosen = rng.sample(special, min(2, len(special))) + rng.sample(paths, min(2, len(paths))) + [rng.choice(["nope.txt", "dir", "", "a//b", "../x"])]
+        for p in chosen:
+            lib = self.call("cat_staged", id=oid, path=p) if staged else self.call("cat", id=oid, path=p, version=vn)
+            o = {"sub": "cat", "S": staged, "v": vt, "id": oid, "path": p,
+                 "call": {"cmd": "cat_staged" if staged else "cat", "id": oid, "path": p}}
+            ok = "ok" in lib
+            rec, out, err = self.invoke(o, "(OPlain [%s])" % ("LOk; LOk" if ok else coq_lib_result(lib)), hist.res_class(lib), what="cat")
+            self.expect_exit(rec, ok)
+            if ok:
+                if len(out) != lib["ok"]["len"] or hashlib.sha256(out).hexdigest() != lib["ok"]["sha256"]:
+                    rec["msgs"].append("cat wrote %d bytes (sha256 %s), the library file has %d bytes (sha256 %s)" % (
+                        len(out), hashlib.sha256(out).hexdigest()[:16], lib["ok"]["len"], lib["ok"]["sha256"][:16]))
+                ing = self.ingested.get((oid, p))
+                if ing is not None and out != ing:
+                    rec["msgs"].append("cat output differs from the %d bytes that were ingested for %s" % (len(ing), p))
+                if ing is not None:
+                    self.stat("cat_ingested_checked")
+                self.stat("cat_ok")
+            elif out:
+                rec["msgs"].append("failed cat wrote %d bytes to stdout" % len(out))
+
+    def q_log(self, oid, with_path):
+        rng = self.rng
+        path = None
+        if with_path:
+            st = self.call("get_object", id=oid, version=None)
+            cands = sorted(st["ok"]["state"]) if "ok" in st else []
+            path = rng.choice(cands + ["nope.txt"]) if cands else "nope.txt"
+        lib = self.call("file_versions", id=oid, path=path) if with_path else self.call("versions", id=oid)
+        o = {"sub": "log", "c": rng.random() < 0.5, "h": rng.random() < 0.3, "t": rng.random() < 0.5, "r": rng.random() < 0.4,
+             "n": rng.choice([None, None, 0, 1, 2, 100]), "id": oid, "path": path,
+             "call": {"cmd": "file_versions" if with_path else "versions", "id": oid, "path": path}}
+        ok = "ok" in lib
+        ncalls = "LOk; LOk" if with_path else "LOk"
+        rec, out, err = self.invoke(o, "(OPlain [%s])" % (ncalls if ok else coq_lib_result(lib)), hist.res_class(lib), what="log")
+        self.expect_exit(rec, ok)
+        if not ok:
+            if out:
+                rec["msgs"].append("failed log wrote to stdout")
+            return
+        want = list(lib["ok"])
+        if o["r"]:
+            want.reverse()
+        if o["n"] is not None:
+            want = want[:o["n"]]
+        ls = self.lines(out)
+        if o["c"]:
+            if o["h"] and ls and ls[0].startswith("Version"):
+                ls = ls[1:]
+            got = []
+            for line in ls:
+                if o["t"]:
+                    f = [x.rstrip(" ") for x in line.split("\t")]
+                    got.append((f[0].strip(), f[1], f[2], f[4] if len(f) > 4 else ""))
+                else:
+                    got.append((line.split()[0],))
+            exp = [(v["version"], v["name"] or "NA", v["address"] or "NA", v["message"] or "") if o["t"] else (v["version"],) for v in want]
+        else:
+            got = [int(m.group(1)) for m in (re.match(r"^Version (\d+)$", l) for l in ls) if m]
+            exp = [v["num"] for v in want]
+        if got != exp:
+            rec["msgs"].append("log printed %r, the library returned %r" % (got[:6], exp[:6]))
+
+    @staticmethod
+    def diff_entries(lib_diffs):
+        out = []
+        for d in lib_diffs:
+            if "a" in d:
+                out.append(("Added", d["a"]))
+            elif "m" in d:
+                out.append(("Modified", d["m"]))
+            elif "d" in d:
+                out.append(("Deleted", d["d"]))
+            else:
+                out.append(("Renamed", (frozenset(d["r"][0]), frozenset(d["r"][1]))))
+        return sorted(out, key=repr)
+
+    def parse_diff_table(self, ls, rec):
+        got = []
+        seen_header = False
+        for line in ls:
+            if not seen_header:
+                if re.match(r"^Operation\s+Logical Path$", line):
+                    seen_header = True
+                continue
+            op = line.split(" ")[0]
+            rest = line[len(op):].strip(" ")
+            if op == "Renamed" and " -> " in rest:
+                l, r = rest.split(" -> ", 1)
+                got.append((op, (frozenset(l.split(", ")), frozenset(r.split(", ")))))
+            else:
+                got.append((op, rest))
+        return sorted(got, key=repr)
+
+    def check_show(self, o, results, details, diffs, what):
+        """results: library results in call order (stops at the first error)"""
+        ok = all("ok" in r for r in results)
+        terms = [coq_lib_result(r) for r in results]
+        rec, out, err = self.invoke(o, "(OPlain [%s])" % "; ".join(terms), [hist.res_class(r) for r in results], what=what)
+        self.expect_exit(rec, ok)
+        if not ok:
+            return
+        ls = self.lines(out)
+        if details is not None:
+            if not ls or ls[0] != "Version %d" % details["details"]["num"]:
+                rec["msgs"].append("show header %r, library version %d" % (ls[:1], details["details"]["num"]))
+        got = self.parse_diff_table(ls, rec)
+        exp = self.diff_entries(diffs)
+        if got != exp:
+            rec["msgs"].append("printed changes %r, the library diff is %r" % (got[:6], exp[:6]))
+
+    def q_show(self, oid, staged):
+        rng = self.rng
+        minimal = rng.random() < 0.4
+        if staged:
+            results, det = [], None
+            if not minimal:
+                r = self.call("get_staged_object_details", id=oid)
+                results.append(r)
+                det = r.get("ok")
+            diffs = []
+            if all("ok" in r for r in results):
+                r = self.call("diff_staged", id=oid)
+                results.append(r)
+                diffs = r.get("ok", [])
+            o = {"sub": "show", "S": True, "m": minimal, "id": oid, "v": None,
+                 "call": {"cmd": "show_staged", "id": oid, "minimal": minimal}}
+            self.check_show(o, results, det, diffs, "show -S")
+        else:
+            _, vt, vn = self.pick_version(oid, rng.choice(["head", "version"]))
+            r = self.call("get_object_details", id=oid, version=vn)
+            results, diffs = [r], []
+            if "ok" in r:
+                r2 = self.call("diff", id=oid, left=None, right=r["ok"]["details"]["num"])
+                results.append(r2)
+                diffs = r2.get("ok", [])
+            o = {"sub": "show", "S": False, "m": minimal, "id": oid, "v": vt, "call": {"cmd": "show", "id": oid}}
+            self.check_show(o, results, None if minimal else r.get("ok"), diffs, "show")
+
+    def q_status_id(self, oid):
+        r = self.call("get_staged_object_details", id=oid)
+        results, diffs = [r], []
+        if "ok" in r:
+            r2 = self.call("diff_staged", id=oid)
+            results.append(r2)
+            diffs = r2.get("ok", [])
+        o = {"sub": "status", "id": oid, "call": {"cmd": "show_staged", "id": oid, "minimal": False}}
+        self.check_show(o, results, r.get("ok"), diffs, "status <id>")
+
+    def q_diff(self, oid):
+        rng = self.rng
+        head = self.head_num(oid)
+        l = rng.choice([1, max(1, head - 1), max(1, head)])
+        r = rng.choice([max(1, head), head + 1, l, max(1, head - 1)])
+        lt, rt = self.vtext(l), self.vtext(r)
+        if lt == rt or (l == r and rng.random() < 0.5):
+            rt = lt                                  # identical text: the command returns before any call
+        o = {"sub": "diff", "id": oid, "left": lt, "right": rt}
+        # DiffCmd compares the parsed VersionNums: `v2` and `2` are equal (diff.rs:141)
+        if l == r:
+            o["call"] = {"cmd": "nocall"} if lt == rt else {"cmd": "diff", "id": oid}
+            if lt != rt:
+                self.stat("diff_same_version_two_spellings")
+                return                               # spelled differently: outside the option model (text comparison)
+            rec, out, err = self.invoke(o, "(OPlain [])", "nocall", what="diff same")
+            self.expect_exit(rec, True)
+            if out:
+                rec["msgs"].append("diff of a version with itself printed something")
+            return
+        lib = self.call("diff", id=oid, left=l, right=r)
+        o["call"] = {"cmd": "diff", "id": oid}
+        self.check_show(o, [lib], None, lib.get("ok", []), "diff")
+
+    def q_info(self, oid):
+        rng = self.rng
+        if oid is None:
+            lib = self.call("describe_repo")
+            o = {"sub": "info", "S": rng.random() < 0.3, "id": None, "call": {"cmd": "describe_repo"}}
+        else:
+            staged = rng.random() < 0.5
+            lib = self.call("describe_staged_object" if staged else "describe_object", id=oid)
+            o = {"sub": "info", "S": staged, "id": oid,
+                 "call": {"cmd": "describe_staged_object" if staged else "describe_object", "id": oid}}
+        ok = "ok" in lib
+        rec, out, err = self.invoke(o, "(OPlain [%s])" % coq_lib_result(lib), hist.res_class(lib), what="info")
+        self.expect_exit(rec, ok)
+        if ok:
+            kv = {}
+            for line in self.lines(out):
+                m = re.match(r"^([A-Za-z ]+):\s+(.*)$", line)
+                if m:
+                    kv[m.group(1)] = m.group(2)
+            if kv.get("Spec Version") != str(lib["ok"]["spec"]):
+                rec["msgs"].append("info spec version %r, library %r" % (kv.get("Spec Version"), lib["ok"]["spec"]))
+            if oid is not None and kv.get("Digest Algorithm") != (lib["ok"].get("alg") or "unknown"):
+                rec["msgs"].append("info digest algorithm %r, library %r" % (kv.get("Digest Algorithm"), lib["ok"].get("alg")))
+            if oid is None and kv.get("Storage Layout") != (lib["ok"].get("layout") or "unknown"):
+                rec["msgs"].append("info layout %r, library %r" % (kv.get("Storage Layout"), lib["ok"].get("layout")))
+
+    # -- validate and ls on deliberately damaged copies -----------------------------------------
+    CORRUPTIONS = ["del_content", "sidecar", "stray_root_file", "stray_hier_file", "empty_dir", "rm_root_decl",
+                   "bad_root_decl", "second_root_decl", "bad_inventory", "rm_obj_decl", "unknown_ext", "alter_content"]
+
+    def corrupt(self, root, kind):
+        rng = self.rng
+        objs = hist.find_object_roots(root)
+        obj = rng.choice(objs) if objs else None
+
+        def content_files(o):
+            out = []
+            for d, _, fs in os.walk(o):
+                rel = os.path.relpath(d, o)
+                if re.match(r"^v\d+/", rel + "/") and rel.count("/") >= 1:
+                    out += [os.path.join(d, f) for f in fs]
+            return sorted(out)
+        if kind in ("del_content", "alter_content"):
+            fs = content_files(obj) if obj else []
+            if not fs:
+                return False
+            p = rng.choice(fs)
+            if kind == "del_content":
+                os.remove(p)
+            else:
+                with open(p, "ab") as f:
+                    f.write(b"tampered")
+        elif kind == "sidecar":
+            sc = [f for f in (os.listdir(obj) if obj else []) if f.startswith("inventory.json.")]
+            if not sc:
+                return False
+            with open(os.path.join(obj, sc[0]), "w") as f:
+                f.write("00ff  inventory.json\n")
+        elif kind == "stray_root_file":
+            open(os.path.join(root, "README-stray.txt"), "w").write("allowed here\n")
+        elif kind == "stray_hier_file":
+            os.makedirs(os.path.join(root, "straydir", "deeper"), exist_ok=True)
+            open(os.path.join(root, "straydir", "deeper", "file.txt"), "w").write("not allowed here\n")
+        elif kind == "empty_dir":
+            os.makedirs(os.path.join(root, "emptydir"), exist_ok=True)
+        elif kind in ("rm_root_decl", "bad_root_decl", "second_root_decl"):
+            decl = [f for f in os.listdir(root) if f.startswith("0=ocfl_")]
+            if not decl:
+                return False
+            if kind == "rm_root_decl":
+                os.remove(os.path.join(root, decl[0]))
+            elif kind == "bad_root_decl":
+                open(os.path.join(root, decl[0]), "w").write("ocfl_9.9\n")
+            else:
+                other = "1.0" if decl[0].endswith("1.1") else "1.1"
+                open(os.path.join(root, "0=ocfl_" + other), "w").write("ocfl_%s\n" % other)
+        elif kind == "bad_inventory":
+            if not obj:
+                return False
+            open(os.path.join(obj, "inventory.json"), "w").write("{")
+        elif kind == "rm_obj_decl":
+            decl = [f for f in (os.listdir(obj) if obj else []) if f.startswith("0=ocfl_object_")]
+            if not decl:
+                return False
+            os.remove(os.path.join(obj, decl[0]))
+        elif kind == "unknown_ext":
+            os.makedirs(os.path.join(root, "extensions", "9999-not-registered"), exist_ok=True)
+        return True
+
+    def validate_scenarios(self):
+        rng = self.rng
+        n = 3 if self.ctx.quick() else 6
+        saved = (self.h, self.g)
+        for k in range(n):
+            copy_root = os.path.join(self.lib.sc.base, "val%d" % k)
+            shutil.copytree(self.lib.root, copy_root, symlinks=True)
+            stg = None
+            if self.lib.stg:
+                stg = copy_root + "-stg"
+                shutil.copytree(self.lib.stg, stg, symlinks=True)
+            applied = []
+            if self.hi == 0 and k in (1, 2):
+                kind = {1: "rm_root_decl", 2: "bad_inventory"}[k]
+                applied = [kind] if self.corrupt(copy_root, kind) else []
+            elif k > 0:
+                for kind in rng.sample(self.CORRUPTIONS, rng.choice([1, 1, 2])):
+                    if self.corrupt(copy_root, kind):
+                        applied.append(kind)
+            for kind in applied or ["none"]:
+                self.stat("corruption:" + kind)
+            self.h, self.g = "V%d_%d" % (self.hi, k), {"root": copy_root, "staging": stg}
+            self.step = "validate-scenario-%d %s" % (k, "+".join(applied) or "undamaged")
+            self.desc = dict(self.desc, scenario={"k": k, "corruptions": applied})
+            try:
+                r = self.s.call(dict(cmd="open", h=self.h, root=copy_root, staging=stg))
+                if "panic" in r:
+                    self.stat("library_panics")
+                    continue
+                if "ok" not in r:
+                    o = self.validate_opts([], [], None, False, False, [])
+                    o["call"] = {"cmd": "validate_repo", "fixity": True}
+                    rec, out, err = self.invoke(o, "ONoRepo", "open failed", what="validate (repository cannot be opened)")
+                    self.expect_exit(rec, False)
+                    continue
+                self.validate_repo_mode(copy_root)
+                self.validate_objects_mode(copy_root)
+                self.q_ls_objects(False)
+                self.q_ls_objects(False, glob=True)
+                for oid in self.ids:
+                    self.q_ls_contents(oid, "head")
+            except Abandon:
+                self.stat("validate_scenarios_abandoned")
+            finally:
+                self.s.call(dict(cmd="drop", h=self.h))
+                self.h, self.g = saved
+                shutil.rmtree(copy_root, ignore_errors=True)
+        self.desc = {k2: v for k2, v in self.desc.items() if k2 != "scenario"}
+
+    def validate_opts(self, e, w, level, paths, nofix, ids):
+        return {"sub": "validate", "p": paths, "n": nofix, "l": level, "w": list(w), "e": list(e), "ids": list(ids)}
+
+    def code_sets(self, present, universe, must=()):
+        """a few subsets of codes to suppress: none, everything present, the `must` set, random"""
+        rng = self.rng
+        present = sorted(present)
+        out = [[], present, sorted(must)]
+        for _ in range(2):
+            pool = present + rng.sample(universe, 2)
+            out.append(sorted(set(rng.sample(pool, rng.randrange(0, len(pool) + 1)))))
+        return out
+
+    @staticmethod
+    def py_exit(e_sup, storage, objs):
+        """model-free verdict from the library's results: 2 invalid, 1 only operational errors, 0"""
+        uns = lambda v: any(e[0] not in e_sup for e in v["errors"])
+        if any(uns(v) for v in storage) or any("ok" in x and uns(x["ok"]) for x in objs):
+            return 2
+        return 1 if any("ok" not in x for x in objs) else 0
+
+    def check_validate_output(self, rec, out, o, objs):
+        ls = self.lines(out)
+        printed = len([l for l in ls if re.match(r"^Object .* is (valid|invalid|valid with warnings)$", l)])
+        rec["printed"] = printed
+        oks = [x["ok"] for x in objs if "ok" in x]
+        inval = len([v for v in oks if any(e[0] not in o["e"] for e in v["errors"])])
+        m1 = [l for l in ls if l.startswith("  Total objects:")]
+        m2 = [l for l in ls if l.startswith("  Invalid objects:")]
+        if m1 and int(m1[-1].split(":")[1]) != len(oks):
+            rec["msgs"].append("summary reports %s objects, the library validated %d" % (m1[-1].split(":")[1].strip(), len(oks)))
+        if m2 and int(m2[-1].split(":")[1]) != inval:
+            rec["msgs"].append("summary reports %s invalid objects, %d have an unsuppressed error in the library's results" % (
+                m2[-1].split(":")[1].strip(), inval))
+
+    ERR_UNIVERSE = ["E%03d" % i for i in (1, 3, 23, 33, 37, 60, 69, 72, 73, 76, 80, 81, 92, 93, 107)]
+    WARN_UNIVERSE = ["W%03d" % i for i in (1, 4, 5, 7, 9, 10, 13)]
+
+    def validate_repo_mode(self, root):
+        rng = self.rng
+        libs = {}
+        combos = 4 if self.ctx.quick() else 8
+        first = self.call("validate_repo", fixity=True)
+        libs[True] = first
+        present_e, present_w, root_e = set(), set(), set()
+        if "ok" in first:
+            v = first["ok"]
+            root_e = {e[0] for e in v["root"]["errors"]}
+            for part in [v["root"], v["hierarchy"]] + [x["ok"] for x in v["objects"] if "ok" in x]:
+                present_e |= {e[0] for e in part["errors"]}
+                present_w |= {w[0] for w in part["warnings"]}
+        esets = self.code_sets(present_e, self.ERR_UNIVERSE, must=root_e)
+        wsets = self.code_sets(present_w, self.WARN_UNIVERSE)
+        chosen = [(esets[i % len(esets)], rng.choice(wsets)) for i in range(combos)]
+        for e, w in chosen:
+            nofix = rng.random() < 0.4
+            if (not nofix) not in libs:
+                libs[not nofix] = self.call("validate_repo", fixity=not nofix)
+            lib = libs[not nofix]
+            o = self.validate_opts(e, w, rng.choice([None, "info", "warn", "error"]), rng.random() < 0.2, nofix, [])
+            o["call"] = {"cmd": "validate_repo", "fixity": not nofix}
+            if "ok" in lib:
+                v = lib["ok"]
+                outcome = "(OValidateRepo %s (Some (mkRR %s %s %s)))" % (
+                    coq_vflags(o), coq_vresult(v["root"]), "[" + "; ".join(coq_vobj(x) for x in v["objects"]) + "]", coq_vresult(v["hierarchy"]))
+                want = self.py_exit(set(e), [v["root"], v["hierarchy"]], v["objects"])
+                in_class = bool(root_e_now(v) & set(e)) and want != 2
+            else:
+                outcome, want, in_class = "(OValidateRepo %s None)" % coq_vflags(o), 1, False
+            rec, out, err = self.invoke(o, outcome, {"expected_exit": want, "suppress_error": e}, what="validate repository")
+            self.stat("validate_repo:exit%d" % rec["rc"])
+            if rec["rc"] != want:
+                if in_class and rec["rc"] == 2:
+                    rec["known"] = True
+                else:
+                    rec["msgs"].append("validate exit status %d; the library's results under -e %s give %d" % (rec["rc"], " ".join(e) or "(none)", want))
+            if "ok" in lib:
+                self.check_validate_output(rec, out, o, lib["ok"]["objects"])
+
+    def validate_objects_mode(self, root):
+        rng = self.rng
+        combos = 3 if self.ctx.quick() else 6
+        roots = [os.path.relpath(p, root) for p in hist.find_object_roots(root)]
+        for _ in range(combos):
+            paths = rng.random() < 0.4 and bool(roots)
+            pool = (roots * 3 + ["no/such/path"]) if paths else (self.ids * 3 + ["no-such-object"])
+            ids = [rng.choice(pool) for _ in range(rng.choice([1, 1, 2, 3]))]
+            nofix = rng.random() < 0.4
+            objs = [self.call("validate_object_at" if paths else "validate_object", **({"path": x} if paths else {"id": x}), fixity=not nofix)
+                    for x in ids]
+            present_e = {e[0] for x in objs if "ok" in x for e in x["ok"]["errors"]}
+            present_w = {w[0] for x in objs if "ok" in x for w in x["ok"]["warnings"]}
+            e = rng.choice(self.code_sets(present_e, self.ERR_UNIVERSE))
+            w = rng.choice(self.code_sets(present_w, self.WARN_UNIVERSE))
+            o = self.validate_opts(e, w, rng.choice([None, "info", "warn", "error"]), paths, nofix, ids)
+            o["call"] = {"cmd": "validate_objects", "ids": ids, "paths": paths, "fixity": not nofix}
+            outcome = "(OValidateObjects %s %s)" % (coq_vflags(o), "[" + "; ".join(coq_vobj(x) for x in objs) + "]")
+            want = self.py_exit(set(e), [], objs)
+            rec, out, err = self.invoke(o, outcome, {"expected_exit": want, "suppress_error": e}, what="validate objects")
+            self.stat("validate_objects:exit%d" % rec["rc"])
+            if rec["rc"] != want:
+                rec["msgs"].append("validate exit status %d; the library's results under -e %s give %d" % (rec["rc"], " ".join(e) or "(none)", want))
+            self.check_validate_output(rec, out, o, objs)
+
+
+def root_e_now(v):
+    return {e[0] for e in v["root"]["errors"]}
+
+
+# --------------------------------------------------------------------------- the fixed tour (every sub-command once)
+
+TOUR_CFG = {"layout": "0004", "repo_spec": "1.0", "obj_spec": "1.0", "alg": "sha512", "cdir": "content", "pad": 0,
+            "ext_staging": False, "fresh_handle": False}
+
+
+def tour_ops():
+    a, b_ = "obj-0", "obj-1"
+    return [
+        {"op": "new", "id": a, "spec": None},
+        {"op": "cp_ext", "id": a, "files": SPECIAL_FILES, "dst": "special/", "recursive": False, "special": True},
+        {"op": "cp_ext", "id": a, "files": [["a.txt", 2]], "dst": "a.txt", "recursive": False},
+        {"op": "cp_ext", "id": a, "files": [], "dir": ["tree", {"t1.txt": 2, "in/t2.txt": 3}], "dst": "dir", "recursive": True},
+        {"op": "cp_ext", "id": a, "files": [], "dir": ["tree", {"t1.txt": 2}], "dst": "norec", "recursive": False},
+        {"op": "commit", "id": a, "name": None, "address": None, "message": None, "created": None, "pretty": False},
+        {"op": "new", "id": b_, "alg": "sha256", "cdir": "stuff", "pad": 3, "spec": "1.0"},
+        {"op": "cp_ext", "id": b_, "files": [["x y.txt", 1], ["b.txt", 5]], "dst": "/", "recursive": False},
+        {"op": "mv_ext", "id": b_, "files": [["m.txt", 4]], "dst": "moved/"},
+        {"op": "commit", "id": b_, "pretty": True},
+        {"op": "cp_int", "id": a, "version": 1, "src": ["special/bin256.bin", "a.txt"], "dst": "copied/", "recursive": False},
+        {"op": "cp_int", "id": a, "version": None, "src": ["dir"], "dst": "dircopy", "recursive": True},
+        {"op": "mv_int", "id": a, "src": ["a.txt"], "dst": "renamed.txt"},
+        {"op": "rm", "id": a, "paths": ["dir/in"], "recursive": True},
+        {"op": "rm", "id": a, "paths": ["dir"], "recursive": False},
+        {"op": "reset", "id": a, "paths": ["dir/in/t2.txt"], "recursive": False},
+        {"op": "commit", "id": a, "name": None},
+        {"op": "commit", "id": a},
+        {"op": "cp_ext", "id": a, "files": [["ok1.txt", 2], ["ok2.txt", 3]], "dst": "part/", "recursive": False, "missing": 1},
+        {"op": "reset_all", "id": a, "recursive_flag": True},
+        {"op": "upgrade_repo", "spec": "1.1"},
+        {"op": "upgrade_object", "id": a, "spec": "1.1"},
+        {"op": "purge", "id": b_, "answer": "n"},
+        {"op": "purge", "id": b_, "answer": "y"},
+        {"op": "new", "id": b_},
+        {"op": "cp_ext", "id": b_, "files": [["again.txt", 0]], "dst": "again.txt", "recursive": False},
+        {"op": "purge", "id": "never-existed"},
+    ]
+
+
+def misc_cases(rp):
+    """command lines that never reach a library call, and the default root"""
+    oid = rp.ids[0]
+    rejected = [
+        {"sub": "cat", "S": True, "v": "1", "id": oid, "path": "a.txt"},
+        {"sub": "cp", "r": False, "i": False, "v": "1", "id": oid, "src": ["a.txt"], "dst": "b.txt"},
+        ls_opts(id=oid, S=True, v="v1"),
+        {"sub": "show", "S": True, "m": False, "id": oid, "v": "v1"},
+        {"sub": "cp", "r": True, "i": True, "v": None, "id": oid, "src": [], "dst": "b.txt"},
+        {"sub": "mv", "i": False, "id": oid, "src": [], "dst": "b.txt"},
+        {"sub": "rm", "r": False, "id": oid, "paths": []},
+    ]
+    for o in rejected:
+        rec, out, err = rp.invoke(o, "OUsage", "rejected by clap", dispatch="Rejected", what="usage error")
+        if rec["rc"] == 0:
+            rec["msgs"].append("a command line violating the declared option constraints exited with 0")
+        if out:
+            rec["msgs"].append("usage error wrote to stdout")
+    for g in ({"root": rp.cl.root, "staging": None, "region": "us-east-1"}, {"root": rp.cl.root, "staging": None, "endpoint": "https://localhost:1"}):
+        o = {"sub": "info", "S": False, "id": None, "call": {"cmd": "describe_repo"}}
+        rec, out, err = rp.invoke(o, "ONoRepo", "configuration refused", g=g, dispatch="NoRepo", what="invalid configuration")
+        rp.expect_exit(rec, False)
+    rp.compare_trees(rp.recs[-1])
+    # default root "." (mod.rs:314-316)
+    lib = rp.call("list_objects", glob=None)
+    o = ls_opts()
+    o["call"] = {"cmd": "list_objects", "glob": None}
+    items = [x["ok"] for x in lib.get("ok", []) if "ok" in x]
+    rec, out, err = rp.invoke(o, "(OLs (LsObjects LOk [%s]))" % "; ".join(coq_lib_result(x) for x in lib.get("ok", [])),
+                              "default root", g={"root": None, "staging": None}, cwd=rp.cl.root, what="ls with the default root")
+    rp.expect_exit(rec, "ok" in lib and len(items) == len(lib["ok"]))
+    if sorted(rp.lines(out)) != sorted(i["id"] for i in items):
+        rec["msgs"].append("ls in the storage root printed %r, the library lists %r" % (rp.lines(out), [i["id"] for i in items]))
+
+
+# --------------------------------------------------------------------------- driver
+
+def run_histories(ctx, plan):
+    """plan: list of (hi, cfg, ops, hseed).  Returns (records, stats, cli)"""
+    cli = Cli(ctx)
+    sess = hist.Session()
+    recs, stats = [], {}
+    try:
+        for hi, cfg, ops, hseed in plan:
+            rp = Replay(ctx, cli, sess, hi, cfg, ops, hseed, recs, stats)
+            if hi == 0:
+                orig = rp.validate_scenarios
+
+                def with_misc(rp=rp, orig=orig):
+                    misc_cases(rp)
+                    orig()
+                rp.validate_scenarios = with_misc
+            rp.run()
+            stats["histories"] = stats.get("histories", 0) + 1
+    finally:
+        sess.close()
+    return recs, stats, cli
+
+
+def evaluate(ctx, recs):
+    """Coq evaluation of every invocation + classification"""
+    terms = []
+    for r in recs:
+        rc = r["rc"] if r["rc"] >= 0 else 1000 - r["rc"]
+        pr = "None" if r["printed"] is None else "(Some %d)" % r["printed"]
+        terms.append("check_step %s %s %s %s %d %s" % (r["g"], r["s"], r["dispatch"], r["outcome"], rc, pr))
+    res = common.coq_eval("c20", ["Base.Bytes", "Model.Cli", "Model.KnownC20", "Corr.CheckCli"], terms, batch=60)
+    known_listed = KNOWN_ROOT in {k["id"] for k in ctx.known}
+    n_viol = 0
+    fixed_seen = 0
+    for r, v in zip(recs, res):
+        flags = re.findall(r"true|false", v)
+        argv_ok, exit_p, exit_f, printed_ok, in_class = [x == "true" for x in flags]
+        ctx.count((r["what"], r["rc"], json.dumps(r["lib"], sort_keys=True, default=str), r["s"][:40]), nontrivial=True,
+                  sample={"argv": r["argv"], "exit": r["rc"], "library": r["lib"], "model": v})
+        detail = {"input": {"argv": r["argv"], "history": r["desc"], "step": r["step"], "what": r["what"]},
+                  "observed": {"exit_status": r["rc"], "stderr_tail": r["stderr"], "library": r["lib"]}}
+        if r["known"] and not known_listed:
+            r["msgs"].append("validate -e on a storage-root error still exits with 2 (src/cmd/validate.rs:144) and the finding is not listed as known")
+        if r["msgs"]:
+            n_viol += 1
+            if n_viol <= 5:
+                ctx.violation("impl-violation", dict(detail, expected="; ".join(r["msgs"])))
+            continue
+        if r["known"]:
+            ctx.known_hit(KNOWN_ROOT)
+        if in_class and not r["known"]:
+            fixed_seen += 1                      # the class was reached and the binary behaved as the repaired model
+        if not argv_ok:
+            common.corr_break(ctx, "Corr.CheckCli check_argv (Model/Cli.v argv_to_call vs the calls the driver made)", detail)
+        elif not (exit_p or exit_f):
+            common.corr_break(ctx, "Corr.CheckCli check_exit (Model/Cli.v cli_exit vs the exit status of the binary)", dict(detail, model=v))
+        elif not printed_ok:
+            common.corr_break(ctx, "Corr.CheckCli check_printed (validate should_print / -l level)", dict(detail, model=v))
+    if fixed_seen:
+        ctx.coverage["known_class_reached_but_repaired"] = fixed_seen
+    return n_viol
+
+
+def plan_for(ctx):
+    n = 9 if ctx.quick() else 110
+    plan = [(0, TOUR_CFG, tour_ops(), ctx.rng.randrange(2 ** 31))]
+    cfgs = hist.configurations(ctx.rng, n)
+    for i, cfg in enumerate(cfgs, 1):
+        hseed = ctx.rng.randrange(2 ** 31)
+        hr = random.Random(hseed)
+        ops = gen_ops(hr, cfg, 14 if ctx.quick() else hr.choice([14, 20, 30]))
+        plan.append((i, cfg, ops, hseed))
+    return plan
+
+
+def finish(ctx, proof, recs, stats, cli):
+    missing = [s for s in SUBCOMMANDS if not cli.subs.get(s)]
+    ctx.coverage["subcommands_invoked"] = cli.subs
+    ctx.coverage["subcommands_never_invoked"] = missing
+    ctx.coverage["distribution"] = stats
+    ctx.coverage["traces_validated_against_impl"] = len(recs)
+    ctx.coverage["binary_invocations"] = cli.n
+    ctx.level = "proof"
+    ctx.assumptions += [
+        "CLI side = RELEASE binary of /repo (common.build_rocfl_release); debug builds of rocfl panic in `rocfl log` because of a clap debug assertion (-h short flag of --header clashes with help): not a defect of the release binary, noted only",
+        "library side = debug build of the harness (overflow checks on); a library panic abandons the history (counted, not a C20 matter)",
+        "HOME/XDG_CONFIG_HOME point to an empty scratch directory: no user configuration; S3 options and `rocfl config` (opens $EDITOR) are not exercised",
+        "clap's tokenisation, terminal styling (stdout is a pipe: styles off) and the stdout plumbing are exercised by the run, not modelled; listing order is compared only for name sorting",
+        "a tree difference that also shows between two library-only runs of the same history (per-process HashMap order) is attributed to the library, not to the command line",
+    ]
+    return common.finish_with_proof(
+        ctx, proof,
+        rule="histories = 1 fixed tour (every sub-command) + hist.gen_history over hist.configurations extended with option-rich steps "
+             "(special binary/empty/large contents, recursive/non-recursive directory copies, missing sources, commit option subsets, "
+             "prompted purge, upgrades); after mutating steps both trees are compared; read-only commands at checkpoints; validate/ls on "
+             "damaged copies with generated -p/-n/-l/-e/-w; distinct = distinct (command kind, exit status, library outcome, options)")
+
+
+def run(ctx):
+    proof = common.proof_stage(ctx)
+    common.build_harness()
+    common.build_rocfl_release()
+    ok, log = common.coq_make(["theories/Corr/CheckCli.vo"])
+    if not ok:
+        raise common.BuildError("Corr/CheckCli.v does not build:\n" + log[-3000:])
+    plan = plan_for(ctx)
+    recs, stats, cli = run_histories(ctx, plan)
+    evaluate(ctx, recs)
+    return finish(ctx, proof, recs, stats, cli)
+
+
+def replay(ctx, body):
+    """re-run the history of a replay file"""
+    proof = common.proof_stage(ctx)
+    common.build_harness()
+    common.build_rocfl_release()
+    common.coq_make(["theories/Corr/CheckCli.vo"])
+    h = (body.get("input") or {}).get("history")
+    if not h:
+        return run(ctx)
+    recs, stats, cli = run_histories(ctx, [(h["history"], h["cfg"], h["ops"], h["hseed"])])
+    evaluate(ctx, recs)
+    return finish(ctx, proof, recs, stats, cli)
